@@ -76,10 +76,11 @@ def run_impl(case, strategy, parts, faults, tag):
         st.close(); shutil.rmtree(d, ignore_errors=True)
     return out, ann, list(st.store.log), dict(st.store.objects)
 
-def run_model(case, ann, failputs):
+def run_model(case, ann, failputs, parts=0):
     lines = []; si = 0
     for l in case:
-        if l.startswith("RESET"): lines.append("RESET primary,s3" + (",failputs=" + "+".join(str(k) for k in failputs) if failputs else ""))
+        if l.startswith("RESET") and parts: lines.append(f"RESET primary,s3p={parts}")
+        elif l.startswith("RESET"): lines.append("RESET primary,s3" + (",failputs=" + "+".join(str(k) for k in failputs) if failputs else ""))
         elif l.startswith("SNAP"):
             lines.append(ann[si][2:] if si < len(ann) else l); si += 1
         else: lines.append(l)
@@ -192,8 +193,8 @@ def main(tier, seed):
             out, ann, slog, objs = run_impl(c, strategy, parts, faults, f"j{ix}")
             dout = disk_of(c, f"d{ix}")
             fails = oracle(c, out, dout, slog, strategy, faults)
-            dis = None
-            if with_model and strategy == "s3" and mod_ok:
+            dis = None; modelled = False
+            if with_model and strategy in ("s3", "s3_patition") and not (strategy == "s3_patition" and faults) and mod_ok:
                 # which PUTs failed (0-based over the run), for the model
                 # the SDK retries a failed request by itself: a run of requests for one object of which all but the last failed is ONE put_object call
                 puts = [x for x in slog if x[0] == "PUT"]; logical = []
@@ -202,7 +203,8 @@ def main(tier, seed):
                     else: logical.append(x)
                 failputs = [i for i, x in enumerate(logical) if x[2] == 500]
                 if not faults.get("get_once"):
-                    mout = run_model(c, ann, failputs)
+                    modelled = True
+                    mout = run_model(c, ann, failputs, parts if strategy == "s3_patition" else 0)
                     norm = lambda l: "> RESET" if l.startswith("> RESET") else ("> SNAP" if l.startswith("> SNAP") else l)
                     a = core.canon_case([norm(l) for l in mout if not l.startswith("F ")]); b = core.canon_case(out)
                     d = core.first_diff(a, b)
@@ -216,7 +218,7 @@ def main(tier, seed):
                                 p = l.split(" "); cur[core.unesc(p[1]).decode()] = p[2] if len(p) > 2 else ""; mf = cur
                         so = {k: v.hex() for k, v in objs.items()}
                         if mf and mf != so: dis = f"objects differ: model {sorted(mf)} stub {sorted(so)}: " + str(next(((k, mf.get(k), so.get(k)) for k in sorted(set(mf) | set(so)) if mf.get(k) != so.get(k)), ""))[:300]
-            return dict(case=c, strategy=strategy, parts=parts, faults=faults, fails=fails, dis=dis, hash=core.trace_hash(core.canon_case(out)), puts=len([x for x in slog if x[0] == "PUT"]))
+            return dict(case=c, strategy=strategy, parts=parts, faults=faults, fails=fails, dis=dis, modelled=modelled, hash=core.trace_hash(core.canon_case(out)), puts=len([x for x in slog if x[0] == "PUT"]))
         except Exception as e:
             return dict(case=c, strategy=strategy, parts=parts, faults=faults, error=f"{type(e).__name__}: {e}", fails=[], dis=None, hash="", puts=0)
     with ThreadPoolExecutor(max_workers=core.JOBS) as ex:
@@ -259,7 +261,7 @@ def main(tier, seed):
                rule=("operation / snapshot (incremental and space-reclaiming) / restart histories over one database (sets incl. multi-word and multi-byte values, removes, increments, versioned writes): all sequences of length L from an alphabet of 11 steps that contain a snapshot, plus seeded random longer ones, "
                      "each run through the REAL storage code against an in-process S3 stub for strategy s3 and s3_patition with 1, 3 and 10 partitions, for a subset with faults (first PUT fails once, a PUT fails always, first GET fails once), and for a subset with the store selected through the split options NUN_STORAGE_READ_STRATEGY / NUN_STORAGE_WRITE_STRATEGY instead of the single one; the same history under the disk strategy is the reference: "
                      "after the first restart the live keys, values, versions of EVERY user database and database t's id and strategy must agree; two-database histories include names related by prefix (t with t-old, t.v2, t2, t_old, tt; few / many keys both ways round). For strategy s3 the Lean model (s3Snapshot / s3LoadDb) runs the same history and every output line and the bytes of every stored object are compared. distinct by (strategy, partitions, trace hash)"),
-               samples=[jobs[0][0][:14]], traces_validated_against_impl=len([r for r in results if r.get("strategy") == "s3" and not r.get("dis")]),
+               samples=[jobs[0][0][:14]], traces_validated_against_impl=len([r for r in results if r.get("modelled") and not r.get("dis")]), traces_validated_per_strategy={st: len([r for r in results if r.get("modelled") and not r.get("dis") and r.get("strategy") == st]) for st in ("s3", "s3_patition")},
                disagreements=len(disagreements), oracle_failures=len(failures), failure_classes={c: len([f for f in failures if f.cls == c]) for c in {f.cls for f in failures}},
                put_requests=sum(r.get("puts", 0) for r in results), notes=notes)
     core.write_evidence(PID, dict(property_id=PID, tier=tier, seed=seed, level="proof", coverage=cov,
